@@ -26,6 +26,14 @@ CLAIMED = {
          "Structural necessary conditions of actor authorization, for all paths of Complete, Cancel, Ready, Migrate, Store (payer selection) and the five node handlers: every state-changing effect is reachable only through the comparisons that tie the signer to the provider/creator/payer it claims to be; node handlers key every record and coin movement by the signer, and GetSigners returns the Creator address. A reported bypass is a concrete branch sequence. Honesty of TxAddresses lists is not decided.",
          "Trusts dependencies; canonical access-path terms ignore aliasing through nested heap pointers; a boolean copied into a flag without ever being tested directly is not expanded (would be reported, not passed).",
          "DESIGN.md §3 C10"),
+ "C09": ("E2/E1: path-sensitive guard dominance of every model-changing call by signature verification and the owner/read-write comparison against the signing DID; argument provenance from the signed proposal; capability matrix for the model store prefixes",
+         "Structural necessary conditions of data-model authorization for all paths and all field values of Store, Renew, Terminate, UpdataPermission, Complete->UpdateMeta: no model-changing effect is reachable without verifySignature succeeding over the proposal whose fields feed the effect and without the owner / grantee comparison; model prefixes are written only from the tabled entry points. Field-crafting bypasses (e.g. commit ids embedding the data id) are exactly the paths the search looks for. Cryptographic validity is the trusted library's.",
+         "Trusts sao-did VerifyJWS (A-sig) and dependencies; access-path terms ignore aliasing through nested heap pointers.",
+         "DESIGN.md §3 C09"),
+ "C19": ("E1/E2: capability matrix (no bank effect, writes confined to fault tables) + path-sensitive guard dominance of every write by fishman/node/shard tests",
+         "Structural necessary conditions for fault reports: the 'never changes balances, orders, shards or other pledges' clause is proved as absence of capability over the call graph; every write is dominated by the registered-node and fishman tests; a report is persisted only after provider/metadata/order/data-id/shard-listed/holder/unexpired tests; self-recovery only for faults recorded against the signer. Penalty <= holdings (numeric) is not decided.",
+         "Trusts dependencies; over-approximate call graph (absence of capability is sound, presence may be spurious).",
+         "DESIGN.md §3 C19"),
 }
 
 NA_REASON = "check not implemented yet (framework under construction; see DESIGN.md section 3 for the planned structural clauses)"
